@@ -68,6 +68,20 @@ def subtree_ids(v: dict, env: List[dict], seen: Optional[set] = None) -> set:
     return out
 
 
+def find_all(v: Any, env: List[dict]) -> Any:
+    """every dict of a validator description and of its environment"""
+    def go(d: Any) -> Any:
+        if isinstance(d, dict):
+            yield d
+            for x in d.values():
+                yield from go(x)
+        elif isinstance(d, list):
+            for x in d:
+                yield from go(x)
+    yield from go(v)
+    yield from go(env)
+
+
 def has_async(v: Any, env: List[dict], seen: Optional[set] = None) -> bool:
     """is an async-only check configured anywhere in the tree (following Lazy references)?"""
     seen = seen if seen is not None else set()
